@@ -7,3 +7,4 @@ from . import c_read        # noqa
 from . import c_header      # noqa
 from . import c_cropping    # noqa
 from . import c_accessors   # noqa
+from . import c_headers_read  # noqa
